@@ -374,7 +374,7 @@ PROPS = {
         'level_note': 'Trusted: Coq kernel; hand-written bit-exact hash model; 64-bit collision-freedom cannot be proved; harness (reflect read of scrape.Target.labels).',
     },
     'C16': {
-        'engines': [('cfghash', 120, 1500, ['-shardsize', '12'])],
+        'engines': [('cfghash', 150, 1500, ['-shardsize', '12'])],
         'rule': 'edit catalogue over two base configurations (one rich: global, rules, alerting incl. relabeling and basic auth, two jobs with '
                 'params/proxy URL with user info/basic auth/TLS/relabel/metric relabel/static+kubernetes+dns discovery/authorization, remote write '
                 'with URL user info + write relabel + queue, remote read; one minimal without global): 39 single-SETTING edits (each scalar kind, '
@@ -426,10 +426,10 @@ PROPS = {
     'C18': {
         'engines': [('k8s', 600, 12000)],
         'rule': 'cases from one PRNG: 60% ChangeScale (old,new in 0..6 (0..13 thorough), 0-3 templates, flag, claims present/missing/'
-                'left-over/look-alike), 20% Shards (shuffled pod lists, missing IPs, holes), 20% Replicas (rolling / not-ready sets); '
+                'left-over/look-alike), 20% Shards (shuffled pod lists, missing IPs, holes), 20% Replicas (rolling / not-ready sets; half of them HISTORIES of 2-5 calls on one manager with 0 / 1 / 30 / 119 / 120 / 121 / 600 s passing between calls - hook VerifAge - and every set changing between ready, not ready and updating); '
                 'non-trivial = scale actually changed, or >=2 pods, or >=1 rolling set; distinct by input',
         'theorems': 'C18_scale_exact C18_scale_noop C18_deleted_exactly C18_nothing_created C18_survivors_kept C18_names C18_order '
-                    'C18_shard_fields C18_rolling',
+                    'C18_shard_fields C18_rolling C18_rolling_always C18_first_call_is_history (+ C18_rolling_always_example)',
         'level_text': 'Proof: nine theorems about the Gallina model of ChangeScale/Shards/Replicas, for every replica pair, template list, '
                       'claim set, pod order (unbounded), closed under the global context; the model is tied to the Go code by running both '
                       'on generated cluster states (fake clientset) on every run.',
